@@ -146,6 +146,9 @@ pub fn check_files(files: &[SrcFile], st: &mut Stats) -> Result<(), String> {
     if files.iter().any(|f| f.model.labels.iter().any(|(n, i)| i.external && files.iter().any(|g| g.model.labels.get(n).is_some_and(|d| !d.external && d.addr == 0)))) {
         st.class("external-defined-at-address-0");
     }
+    if files.iter().enumerate().any(|(i, f)| f.model.labels.iter().any(|(n, d)| !d.external && files[i + 1..].iter().any(|g| g.model.labels.get(n).is_some_and(|e| !e.external && e.addr == d.addr)))) {
+        st.class("label-defined-at-the-same-address-in-two-files");
+    }
     if files.iter().any(|f| {
         // a use that precedes its .external declaration
         let mut declared: BTreeSet<String> = BTreeSet::new();
@@ -206,7 +209,7 @@ pub fn describe(tape: &[u32]) -> Value {
 
 pub fn run(ctx: &Ctx) -> Outcome {
     let mut out = Outcome::new(
-        "sets of 2-4 generated files sharing a label pool (definitions, .external declarations before/between/after their .fill uses, occasional second definitions, touching/overlapping/identical-origin blocks) \
+        "sets of 2-4 generated files sharing a label pool (definitions, .external declarations before/between/after their .fill uses, occasional second definitions (also at the same address: a label on the `.end` of one file's block and on the first word of a touching block of another file), touching/overlapping/identical-origin blocks) \
          assembled with debug symbols and linked in every order and every bracketing (2/12/120 trees); model: success <=> blocks pairwise disjoint and no label defined at two addresses; \
          on success image == union with resolved .fill cells, labels/flags as modelled, pending relocations (observed by linking a probe definer) == uses of still-undefined externals, for every tree; \
          an evaluation is one link tree; non-trivial = an external gets resolved or a conflict is present; distinct by file texts",
@@ -214,7 +217,7 @@ pub fn run(ctx: &Ctx) -> Outcome {
     let cfg = TapeCfg::new(ctx, 1500, 40_000, 1500);
     out.shards = cfg.shards;
     out.absorb(tape_search(ctx, "main", &cfg, check, describe));
-    out.essential = ["files:2", "files:3", "files:4", "link-should-succeed", "link-should-fail", "external-resolved", "external-pending", "use-before-declaration", "external-defined-at-address-0"].iter().map(|s| s.to_string()).collect();
+    out.essential = ["files:2", "files:3", "files:4", "link-should-succeed", "link-should-fail", "external-resolved", "external-pending", "use-before-declaration", "external-defined-at-address-0", "label-defined-at-the-same-address-in-two-files"].iter().map(|s| s.to_string()).collect();
     out
 }
 
